@@ -143,7 +143,10 @@ func C10_response_template() {
 			wantProto = "chat"
 		}
 	case 8: // extensions
-		switch vChoose("ext", 7) {
+		switch vChoose("ext", 8) {
+		case 7: // the accepted extensions spread over two header lines (RFC 6455 §9.1 allows it): both are returned
+			extra = append(extra, "Sec-WebSocket-Extensions: x-ext", "Sec-WebSocket-Extensions: permessage-deflate; server_no_context_takeover")
+			wantExt = 2
 		case 0:
 			extra = append(extra, "Sec-WebSocket-Extensions: permessage-deflate; server_no_context_takeover")
 			wantExt = 1
@@ -226,6 +229,10 @@ func C10_response_template() {
 	}
 	vAssert(hs.Protocol == wantProto, "resp.protocol_is_servers")
 	vAssert(len(hs.Extensions) == wantExt, "resp.extensions_are_servers")
+	if wantExt == 2 && len(hs.Extensions) == 2 {
+		a, b := string(hs.Extensions[0].Name), string(hs.Extensions[1].Name)
+		vAssert(vOr(vAnd(a == "x-ext", vOr(b == "permessage-deflate", b == "x-ext")), vAnd(a == "permessage-deflate", b == "x-ext")), "resp.both_extensions_returned")
+	}
 	if wantExtParams != "" && len(hs.Extensions) == 1 {
 		got := ""
 		hs.Extensions[0].Parameters.ForEach(func(k, v []byte) bool { got += string(k) + "=" + string(v); return true })
